@@ -165,19 +165,15 @@ Definition wf_slots (st : symtab) (moduleScope : scope) : bool :=
   match wf_slot_forest st (sc_children moduleScope) (module_top moduleScope) (module_top moduleScope) with
   | Some _ => true | None => false end.
 
-(* ---- the pinned symbols whose names must stay free everywhere ----
-   the declarations of a module scope and of every scope reached from it
-   through scopes that contain a direct eval (the code evaluated there can name
-   anything on its scope chain) *)
-Fixpoint eval_reach_decls (sc : scope) : list nat :=
+(* ---- every declaration of a scope tree (members and generated symbols of
+   the scope and of all its descendants) ---- *)
+Fixpoint tree_decls (sc : scope) : list nat :=
   match sc with
-  | Scope mem gen _ de children =>
+  | Scope mem gen _ _ children =>
       mem ++ gen ++
-      (if de
-       then (fix go (cs : list scope) : list nat :=
-               match cs with
-               | [] => []
-               | c :: r => (if sc_eval c then eval_reach_decls c else []) ++ go r
-               end) children
-       else [])
+      (fix go (cs : list scope) : list nat :=
+         match cs with
+         | [] => []
+         | c :: r => tree_decls c ++ go r
+         end) children
   end.
